@@ -178,6 +178,9 @@ def oracle_strided(ck, path):
     base = torch.tensor(ck.nprng.integers(-6, 7, shape).astype(np.float64))
     views = []
     if len(shape) == 4:
+        shape = (2,) + tuple(shape[1:])
+        base = torch.tensor(ck.nprng.integers(-6, 7, shape).astype(np.float64))
+        views.append(('batch-channel-permuted', base.transpose(0, 1).contiguous().transpose(0, 1)))
         views.append(('transposed', base.transpose(2, 3).contiguous().transpose(2, 3)))
         big = torch.tensor(ck.nprng.integers(-6, 7, (shape[0], shape[1], shape[2] * 2, shape[3] * 2)).astype(np.float64))
         views.append(('sliced', big[:, :, ::2, ::2]))
@@ -186,6 +189,7 @@ def oracle_strided(ck, path):
     else:
         big = torch.tensor(ck.nprng.integers(-6, 7, (shape[0], shape[1], shape[2] * 3)).astype(np.float64))
         views.append(('sliced', big[:, :, ::3]))
+        base = torch.tensor(ck.nprng.integers(-6, 7, (2,) + tuple(shape[1:])).astype(np.float64))
         views.append(('permuted', base.permute(1, 0, 2).contiguous().permute(1, 0, 2)))
     for name, v in views:
         with torch.no_grad():
